@@ -1,11 +1,14 @@
 """C03 - URL matching agrees with the declarative meaning of the rules (structural clauses).
 
-Six rules.  None of them interprets the per-part regular expressions or the
+Eight rules.  None of them interprets the per-part regular expressions or the
 backtracking search as a language recogniser: what is decided is the priority
 order, the 405 bookkeeping of the rule loops, the mapping of NoMatch onto HTTP
 exceptions, that a converter's late rejection does not end the search, that
-the weight of a rule part is frozen once it was built, and that the retry on the
-path with merged slashes happens only for maps that merge slashes.
+the weight of a rule part is frozen once it was built, that the retry on the
+path with merged slashes happens only for maps that merge slashes, and two
+writer / reader agreements between the rule parser and the matcher: how the
+regex of a dynamic part ends (end anchor vs. how the matcher applies it) and
+that a final part's regex leaves the rule's trailing slash optional.
 
 Conditions are compared through canonical atoms (wzsa.guards.canon) with local
 flags / aliases replaced by what they stand for.  Slots are found by role and
@@ -33,7 +36,7 @@ from ..dataflow import ReachingDefs
 from ..fold import Folder, RegexConst, Unfoldable, matches_const
 from ..loader import AnalysisError, ClassInfo, FuncInfo, dotted, norm, walk_no_nested
 from ..report import Ctx
-from ._c03_helpers import HelperResolver, StateFlow, Walker, bind_call, flat, is_opaque, subst, truthy_polarity
+from ._c03_helpers import DATA, HelperResolver, PartSite, StateFlow, TailFlow, Walker, bind_call, flat, is_opaque, is_s, re_function, show, subst, truthy_polarity
 
 LEVEL_TEXT = (
     "Static decision of structural clauses of C03 on /repo's current source: (R3.1) priority order - in the matcher's "
@@ -57,9 +60,21 @@ LEVEL_TEXT = (
     "list first), so parts never share or lose their weights; (R3.6) in StateMachineMatcher.match the path with repeated "
     "slashes merged - and hence the retry of the search on it, its slash redirect and its 405 bookkeeping - is used only on "
     "paths on which the map-level `self.merge_slashes` is true (a statement that can also run with the flag off - a handler shared "
-    "by both attempts - may see the merged path only through definitions that are executed under the flag). Not decided: that the compiled per-part regular "
+    "by both attempts - may see the merged path only through definitions that are executed under the flag); (R3.7) writer / reader agreement on "
+    "anchoring - StateMachineMatcher.match applies a part's `content` as a regular expression from the first character of the path segment "
+    "(re `match` / `fullmatch`, written out, through a local, a module-level alias or a caching helper of re.compile - not `search`), and unless every "
+    "application is `fullmatch`, the text of every RulePart that can be dynamic ends in the end-of-string assertion `\\Z` (`$` is not accepted: it also "
+    "matches before a trailing newline) on every path through the functions of werkzeug.routing that build parts: decided by abstract execution of "
+    "those functions (known flags and the known end of strings per path, through `+=`, f-strings, `%` / format / join, conditional expressions, "
+    "slices, module constants, private helpers and closures), so a variable segment cannot admit a path segment that merely starts with "
+    "something its converter accepts; (R3.8) writer / reader agreement on the trailing slash of a final (slash-consuming) part - on no path does the "
+    "regex of a part built with final=True end in a mandatory '/' (the matcher tells match, slash redirect and strict_slashes apart only after "
+    "the regex matched the path without the slash, so the optional-slash suffix may not depend on strict_slashes or anything else), and a "
+    "part built with suffixed=True ends in a last capturing group that matches '' and '/' (the matcher reads the slash from the last group). "
+    "Not decided: that the compiled per-part regular "
     "expressions plus backtracking accept exactly the language the rule grammar denotes (regex / state-machine "
-    "semantics, including under which conditions _parse_rule augments a final part's regex with the optional-slash suffix), "
+    "semantics: the converters' own patterns, the named groups, escaping of literals, what precedes the end of a part's regex, that the empty static part "
+    "follows a suffixed part), "
     "and the relative order of parts whose literal decoration differs *and* whose converters differ."
 )
 TRUSTED = [
@@ -67,6 +82,8 @@ TRUSTED = [
     "list.sort / sorted are stable and order ascending by the key",
     "tuple (NamedTuple) comparison is lexicographic, list comparison is lexicographic",
     "the statement-level CFG of the engine (short-circuit conditions split into atoms)",
+    "re: `match` anchors a pattern at the start only, `fullmatch` at both ends, `search` at neither; `\\Z` matches only at the very end of the string",
+    "R3.8: the re engine run on a suffix of a regex constant folded from the parser's source, against '' and '/'",
 ]
 ASSUMPTIONS = [
     "converters are the classes deriving from routing.converters.BaseConverter inside the package; user converters are outside the claim",
@@ -79,6 +96,9 @@ ASSUMPTIONS = [
     "R3.3: along a path through the NoMatch handler the attributes of the caught exception keep their values (no assignment to them in the handler: checked); a condition that mentions have_match_for in a form whose meaning is not 'is it empty' is exit 2",
     "the traversal in StateMachineMatcher.update is judged by the successor states it feeds itself with; a condition under which it skips a successor is accepted only if it fails solely for states whose .static and .dynamic are both empty (walked over the valuations of those two atoms, every other atom open)",
     "`self.merge_slashes` of the matcher is the map-level setting (it is not assigned inside match(); checked)",
+    "R3.7 / R3.8: every piece appended to a part's regex is a regex fragment of its own (escaped literal text, a converter's pattern wrapped in a group, a constant), so the known end of the text decides how the whole regex ends (no alternation at top level, no class left open)",
+    "R3.7 / R3.8: the abstract execution follows bool flags and strings; the known end of a string is cut to 16 characters and three repetitions of a character; an unknown callee that is handed a followed string, or a rule part changed after it was built, is exit 2; a violation that hangs on a condition over followed values the evaluator cannot read is exit 2, one that hangs on input (`self.<attr>`, parameters, match results) is a violation",
+    "R3.7: the applications of a part's `content` are those in StateMachineMatcher.match (and the functions nested in it); when the matcher looks at the end position of the match object, a missing end anchor is exit 2",
 ]
 
 MATCHER = "routing.matcher.StateMachineMatcher"
@@ -2427,9 +2447,11 @@ def _r35_function(ctx: Ctx, fi: FuncInfo) -> tuple[int, int]:
     rd = ReachingDefs(cfg, fi.params)
     muts = repo.mutators("list")
     binds = _bindings(fi.node, HelperResolver(repo, fi))
-    list_locals = {nm for _, nm, v in binds if _is_fresh_list(v)}
+    # a local that is somewhere bound to a string literal holds text: a slice of it (`content = content[:-1]`) is no list
+    text_locals = {nm for _, nm, v in binds if isinstance(v, ast.JoinedStr) or (isinstance(v, ast.Constant) and isinstance(v.value, (str, bytes)))}
+    list_locals = {nm for _, nm, v in binds if _is_fresh_list(v)} - text_locals
     while True:  # a name bound to another list local holds a list too (the same object: no fresh list for it)
-        more = {nm for _, nm, v in binds if isinstance(v, ast.Name) and v.id in list_locals} - list_locals
+        more = {nm for _, nm, v in binds if isinstance(v, ast.Name) and v.id in list_locals} - list_locals - text_locals
         if not more:
             break
         list_locals |= more
@@ -2530,6 +2552,342 @@ def _weighting_builders(ctx: Ctx, module_filter: t.Callable[[str], bool]) -> lis
 
 
 # ----------------------------------------------------------------------
+# R3.7 / R3.8: what the parser writes into a dynamic part's regex against how the matcher reads it
+
+
+def _regex_applications(ctx: Ctx, m: _Matcher) -> tuple[list[tuple[str, ast.Call]], bool]:
+    """how match() applies a part's `content` as a regular expression: (re method, the call) for every application, and
+    whether the end position of the match object is looked at anywhere (a hand-made full-match test)."""
+    fi = m.match
+    repo = ctx.repo
+    hr = HelperResolver(repo, fi)
+    apps: list[tuple[str, ast.Call]] = []
+    METHODS = ("match", "fullmatch", "search")
+
+    def compiled_by(call: ast.Call, arg: ast.AST, depth: int = 0) -> bool:
+        """the call returns `re.compile(arg)`: written out, or a private helper all of whose returns do that with the
+        parameter arg is bound to (a cache in front of re.compile)."""
+        if re_function(repo, fi, call) == "compile":
+            return bool(call.args) and call.args[0] is arg
+        if isinstance(call.func, ast.Name) and call.func.id in fi.module.assigns and call.func.id not in hr.closures:
+            # a module-level alias: `_compile = re.compile`, `_compile = lru_cache(maxsize=None)(re.compile)`
+            def is_compile(v: ast.AST) -> bool:
+                d = dotted(v)
+                if d is not None:
+                    return repo.resolve(fi.module, d) == "re.compile"
+                return isinstance(v, ast.Call) and len(v.args) == 1 and not v.keywords and is_compile(v.args[0]) and (dotted(v.func) or dotted(getattr(v.func, "func", None)) or "").rsplit(".", 1)[-1] in ("lru_cache", "cache")
+
+            vals = fi.module.assigns[call.func.id]
+            return bool(vals) and all(is_compile(v) for v in vals) and bool(call.args) and call.args[0] is arg
+        r = hr.resolve(call)
+        if r is None or depth > 1:
+            return False
+        bound = bind_call(r[0], call, r[1])
+        if bound is None:
+            return False
+        params = [k for k, v in bound.items() if v is arg]
+        rets = astq.returns_of(r[0])
+        if len(params) != 1 or not rets or astq.assigns_to(r[0], params[0]):
+            return False
+        for rt in rets:
+            vals = _values_of(r[0], rt.value) if rt.value is not None else []
+            if not vals:
+                return False
+            for v in vals:
+                if not (isinstance(v, ast.Call) and _last(dotted(v.func)) == "compile" and v.args and astq.is_name(v.args[0], params[0])):
+                    return False
+        return True
+
+    def follow(pat: ast.AST) -> None:
+        """pat evaluates to the compiled pattern: find the method it is applied with."""
+        p = astq.parent(pat)
+        if isinstance(p, ast.Attribute) and p.value is pat:
+            pc = astq.parent(p)
+            if p.attr in METHODS and isinstance(pc, ast.Call) and pc.func is p:
+                apps.append((p.attr, pc))
+                return
+            if p.attr in ("pattern", "groupindex", "groups", "flags"):
+                return
+            raise AnalysisError(f"{fi.fq}: a rule part's compiled regex is used through `.{p.attr}`: cannot tell how it is anchored")
+        nm, _ = _bound_name(pat) if isinstance(pat, ast.Call) else (None, None)
+        if nm is None:
+            raise AnalysisError(f"{fi.fq}: cannot tell how the compiled regex `{norm(pat)[:60]}` of a rule part is applied")
+        F = _enclosing_func(pat) or fi.node
+        n_uses = 0
+        for x in ast.walk(F):
+            if isinstance(x, ast.Name) and x.id == nm and isinstance(x.ctx, ast.Load):
+                px = astq.parent(x)
+                if isinstance(px, ast.Attribute) and px.value is x:
+                    ppx = astq.parent(px)
+                    if px.attr in METHODS and isinstance(ppx, ast.Call) and ppx.func is px:
+                        apps.append((px.attr, ppx))
+                        n_uses += 1
+                        continue
+                    if px.attr in ("pattern", "groupindex", "groups", "flags"):
+                        continue
+                if isinstance(px, ast.Compare):
+                    continue  # `pat is None`
+                raise AnalysisError(f"{fi.fq}: the compiled regex `{nm}` of a rule part is handed on (`{norm(px)[:60]}`): cannot tell how it is applied")
+        if n_uses == 0:
+            raise AnalysisError(f"{fi.fq}: the compiled regex `{nm}` of a rule part is never applied")
+
+    for x in ast.walk(fi.node):
+        if not (isinstance(x, ast.Attribute) and x.attr == "content" and isinstance(x.ctx, ast.Load)):
+            continue
+        src: ast.AST = x
+        p = astq.parent(src)
+        # through a local: `pattern = part.content`
+        if isinstance(p, (ast.Assign, ast.AnnAssign, ast.NamedExpr)) and p.value is src:
+            nm = p.targets[0].id if isinstance(p, ast.Assign) and len(p.targets) == 1 and isinstance(p.targets[0], ast.Name) else getattr(getattr(p, "target", None), "id", None)
+            if nm is None:
+                raise AnalysisError(f"{fi.fq}: `{norm(p)[:60]}`: cannot follow a rule part's content")
+            F = _enclosing_func(src) or fi.node
+            loads = [y for y in ast.walk(F) if isinstance(y, ast.Name) and y.id == nm and isinstance(y.ctx, ast.Load)]
+            srcs: list[ast.AST] = list(loads)
+        else:
+            srcs = [src]
+        for sx in srcs:
+            px = astq.parent(sx)
+            if isinstance(px, ast.keyword):
+                px = astq.parent(px)
+            if not isinstance(px, ast.Call) or px.func is sx:
+                if isinstance(px, (ast.Compare, ast.Subscript, ast.JoinedStr, ast.FormattedValue)):
+                    continue  # compared / used as a key / shown: not a regex application
+                raise AnalysisError(f"{fi.fq}: `{norm(px)[:60] if px is not None else norm(sx)}`: cannot tell how the matcher uses a rule part's content")
+            rf = re_function(repo, fi, px)
+            if rf in METHODS and px.args and px.args[0] is sx:
+                apps.append((rf, px))
+            elif compiled_by(px, sx):
+                follow(px)
+            elif rf is not None:
+                raise AnalysisError(f"{fi.fq}: a rule part's content is applied through re.{rf}: not a form the rule reads")
+            elif isinstance(px.func, ast.Attribute) and px.func.attr in ("get", "setdefault", "pop", "__contains__") or _last(dotted(px.func)) in ("len", "repr", "str", "print"):
+                continue
+            else:
+                raise AnalysisError(f"{fi.fq}: `{norm(px)[:60]}`: cannot tell how the matcher uses a rule part's content")
+    inspected = False
+    for _, call in apps:
+        nm, _ = _bound_name(call)
+        if nm is None:
+            continue
+        F = _enclosing_func(call) or fi.node
+        for y in ast.walk(F):
+            if isinstance(y, ast.Attribute) and astq.is_name(y.value, nm) and y.attr in ("end", "span", "endpos", "regs"):
+                inspected = True
+    return apps, inspected
+
+
+def _some(xs: list[str], n: int = 4) -> str:
+    u = sorted(set(xs), key=lambda x: (len(x), x))
+    return ", ".join(u[:n]) + (f", ... ({len(u)} endings)" if len(u) > n else "")
+
+
+def _end_anchored(tail: str) -> bool:
+    r"""the text ends in the end-of-string assertion `\Z` (an odd number of backslashes before the Z)."""
+    if not tail.endswith("Z"):
+        return False
+    i = len(tail) - 2
+    k = 0
+    while i >= 0 and tail[i] == "\\":
+        k += 1
+        i -= 1
+    return k % 2 == 1
+
+
+def _strip_anchor(tail: str) -> str:
+    while _end_anchored(tail):
+        tail = tail[:-2]
+    return tail
+
+
+def _part_builders(ctx: Ctx) -> list[FuncInfo]:
+    """the functions of werkzeug.routing from which a RulePart construction is reached (directly or through private
+    helpers), callers before the functions they call."""
+    repo = ctx.repo
+    funcs = [f for f in repo.all_functions() if f.module.name.startswith("werkzeug.routing")]
+    by_node = {id(f.node): f for f in funcs}
+    callees: dict[str, list[FuncInfo]] = {}
+    direct: set[str] = set()
+    for f in funcs:
+        if "RulePart" not in f.module.source and not any(k.startswith("werkzeug.routing.rules") for k in f.module.imports.values()):
+            callees[f.fq] = []
+            continue
+        hr = HelperResolver(repo, f)
+        outs: list[FuncInfo] = []
+        for c in astq.calls(f.node, nested=True):
+            if _ctor_name(_enclosing_func(c), c) == "RulePart":
+                direct.add(f.fq)
+                continue
+            r = hr.resolve(c)
+            if r is not None and id(r[0]) in by_node and by_node[id(r[0])] is not f:
+                outs.append(by_node[id(r[0])])
+        callees[f.fq] = outs
+    builds: dict[str, bool] = {}
+
+    def reach(f: FuncInfo, trail: tuple[str, ...]) -> bool:
+        if f.fq in builds:
+            return builds[f.fq]
+        if f.fq in trail:
+            return False
+        r = f.fq in direct or any(reach(g, trail + (f.fq,)) for g in callees[f.fq])
+        builds[f.fq] = r
+        return r
+
+    bs = [f for f in funcs if reach(f, ())]
+    # callers first: order by the longest call chain below
+    depth: dict[str, int] = {}
+
+    def height(f: FuncInfo, trail: tuple[str, ...]) -> int:
+        if f.fq in depth:
+            return depth[f.fq]
+        if f.fq in trail:
+            return 0
+        h = 1 + max([height(g, trail + (f.fq,)) for g in callees[f.fq] if builds.get(g.fq)] or [0])
+        depth[f.fq] = h
+        return h
+
+    return sorted(bs, key=lambda f: (-height(f, ()), f.fq))
+
+
+def _part_sites(ctx: Ctx) -> tuple[list[list[PartSite]], list[str]]:
+    rp = ctx.repo.cls("routing.rules.RulePart")
+    fields = [st.target.id for st in rp.node.body if isinstance(st, ast.AnnAssign) and isinstance(st.target, ast.Name)]
+    for need in ("content", "static", "final", "suffixed"):
+        if need not in fields:
+            raise AnalysisError(f"routing.rules.RulePart has no field `{need}`")
+    tf = TailFlow(ctx.repo, fields, lambda fn, c: _ctor_name(fn, c) == "RulePart")
+    roots = _part_builders(ctx)
+    if not roots:
+        raise AnalysisError("no function of werkzeug.routing builds a RulePart")
+    for f in roots:
+        if f in tf.analysed:
+            continue
+        ctx.saw(f)
+        tf.run(f)
+    groups: dict[int, list[PartSite]] = {}
+    for st in tf.sites:
+        groups.setdefault(id(st.call), []).append(st)
+    out = sorted(groups.values(), key=lambda g: (getattr(g[0].where, "fq", ""), g[0].call.lineno, g[0].call.col_offset))
+    return out, fields
+
+
+def _r37_r38(ctx: Ctx, m: _Matcher) -> None:
+    apps, inspected = _regex_applications(ctx, m)
+    ctx.floor("R3.7", "places where the matcher applies a rule part's content as a regex", len(apps), 1)
+    methods = sorted({a for a, _ in apps})
+    fi = m.match
+    # reader: anchored at the start
+    for meth, call in apps:
+        ok = meth in ("match", "fullmatch")
+        if not ok:
+            rules_fi = ctx.repo.func("routing.rules.Rule._parse_rule")
+            if any(isinstance(c, ast.Constant) and isinstance(c.value, str) and c.value.lstrip("(").startswith(("\\A", "^")) for c in ast.walk(rules_fi.node)):
+                raise AnalysisError(f"{fi.fq}: the part regex is applied through re `{meth}` and the parser writes a start anchor: cannot decide whether every part has it")
+        ctx.ob("R3.7", "the matcher applies a dynamic part's regex from the first character of the path segment", ok,
+               f"`{norm(call)[:90]}` uses `{meth}`" + ("" if ok else ": it finds the converter's pattern anywhere inside the segment"), fi, call, "part regex applied at segment start")
+    need_end = any(a != "fullmatch" for a in methods)
+    groups, _fields = _part_sites(ctx)
+    n_dyn = n_final = n_suff = 0
+    for g in groups:
+        call, where = g[0].call, g[0].where
+        states = [(dict(s.fields), s.murky) for s in g]
+        # ---- R3.7: end anchor of every dynamic part
+        dyn = [(v, mk) for v, mk in states if v.get("static", DATA) != ("b", True)]
+        if dyn:
+            n_dyn += 1
+            bad: list[str] = []
+            good: list[str] = []
+            for v, mk in dyn:
+                cv, sv = v.get("content", DATA), v.get("static", DATA)
+                if not is_s(cv):
+                    raise AnalysisError(f"{getattr(where, 'fq', where)}: `{norm(call)[:70]}`: cannot follow how the content of this (possibly dynamic) part is put together")
+                anchored = _end_anchored(cv[2])
+                if anchored or not need_end:
+                    good.append(show(cv))
+                    continue
+                if sv[0] != "b":
+                    raise AnalysisError(f"{getattr(where, 'fq', where)}: `{norm(call)[:70]}`: cannot tell whether the part is static on the path on which its content ends in {show(cv)}")
+                if mk:
+                    raise AnalysisError(f"{getattr(where, 'fq', where)}: `{norm(call)[:70]}`: the content ends in {show(cv)} on a path through {list(mk)}, a condition the rule cannot read")
+                if inspected:
+                    raise AnalysisError(f"{fi.fq}: the matcher looks at the end position of the match object: cannot decide whether that replaces the end anchor missing in `{norm(call)[:60]}`")
+                note = " (`$` also matches before a trailing newline: it is not an end anchor)" if cv[2].endswith("$") else ""
+                bad.append(show(cv) + note)
+            how = f"the matcher applies it with {methods}"
+            ctx.ob("R3.7", "the regex of a dynamic part ends in the end-of-string anchor on every path that builds the part (the matcher anchors only the start)", not bad,
+                   f"`{norm(call)[:80]}`: {how}; content ends in " + (f"{_some(bad)} on some path: a segment that merely starts with what the converter accepts is admitted" if bad else _some(good) + ("" if need_end else " (fullmatch: no anchor needed)")),
+                   where, call, "end anchor of dynamic part | " + norm(call)[:100])
+        # ---- R3.8: a final part never requires the trailing slash; a suffixed part captures the optional slash last
+        fin = [(v, mk) for v, mk in states if v.get("final", DATA) == ("b", True) and v.get("static", DATA) != ("b", True)]
+        if fin:
+            n_final += 1
+            bad = []
+            seen_tails: list[str] = []
+            for v, mk in fin:
+                cv = v.get("content", DATA)
+                if not is_s(cv):
+                    raise AnalysisError(f"{getattr(where, 'fq', where)}: `{norm(call)[:70]}`: cannot follow how the content of this final part is put together")
+                body = _strip_anchor(cv[2])
+                seen_tails.append(show(cv))
+                if body.endswith("/"):
+                    if mk:
+                        raise AnalysisError(f"{getattr(where, 'fq', where)}: `{norm(call)[:70]}`: the content ends in {show(cv)} on a path through {list(mk)}, a condition the rule cannot read")
+                    bad.append(show(cv))
+            ctx.ob("R3.8", "the regex of a final (slash-consuming) part never requires the rule's trailing slash: the matcher decides between match, redirect and strict_slashes only after the regex matched the path without it", not bad,
+                   f"`{norm(call)[:80]}`: content ends in " + (f"{_some(bad)} on some path: the branch URL without its trailing slash is not found" if bad else _some(seen_tails)),
+                   where, call, "final part does not require the slash | " + norm(call)[:100])
+        suff = [(v, mk) for v, mk in states if v.get("suffixed", DATA) == ("b", True)]
+        if suff:
+            n_suff += 1
+            bad = []
+            for v, mk in suff:
+                cv = v.get("content", DATA)
+                if not is_s(cv):
+                    raise AnalysisError(f"{getattr(where, 'fq', where)}: `{norm(call)[:70]}`: cannot follow how the content of this suffixed part is put together")
+                verdict = _optional_slash_group(cv[2])
+                if verdict is None:
+                    raise AnalysisError(f"{getattr(where, 'fq', where)}: `{norm(call)[:70]}`: cannot read the end {show(cv)} of the suffixed part's regex")
+                if not verdict:
+                    if mk:
+                        raise AnalysisError(f"{getattr(where, 'fq', where)}: `{norm(call)[:70]}`: suffixed content {show(cv)} on a path through {list(mk)}, a condition the rule cannot read")
+                    bad.append(show(cv))
+            ctx.ob("R3.8", "a part marked suffixed ends in a group that captures the optional trailing slash (the matcher reads the slash from the last group)", not bad,
+                   f"`{norm(call)[:80]}`: " + (f"content ends in {_some(bad)}: its last group is not the optional slash" if bad else "last group captures '' / '/'"),
+                   where, call, "suffixed part captures the slash | " + norm(call)[:100])
+    ctx.floor("R3.7", "constructions of a dynamic rule part", n_dyn, 1)
+    ctx.floor("R3.8", "constructions of a final rule part", n_final, 1)
+    ctx.floor("R3.8", "constructions of a suffixed rule part", n_suff, 1)
+
+
+def _optional_slash_group(tail: str) -> bool | None:
+    """the regex text ends (before the end anchor) in a capturing group that matches the empty string and '/', and
+    the group is the last one: decided with the re engine on the longest suffix of the known text that is a regex of
+    its own.  None: no suffix parses."""
+    import re
+
+    parsed = False
+    for i in range(len(tail)):
+        frag = tail[i:]
+        if frag.startswith((")", "?", "*", "+", "|", "{")) or (i and tail[i - 1] == "\\"):
+            continue
+        try:
+            rx = re.compile(frag)
+        except re.error:
+            continue
+        parsed = True
+        if rx.groups == 0:
+            continue
+        ok = True
+        for probe in ("", "/"):
+            mm = rx.match(probe)
+            if mm is None or mm.end() != len(probe) or mm.groups()[-1] != probe:
+                ok = False
+        if ok:
+            return True
+    return False if parsed else None
+
+
+# ----------------------------------------------------------------------
 
 
 def run(ctx: Ctx) -> None:
@@ -2539,6 +2897,8 @@ def run(ctx: Ctx) -> None:
     ctx.rule("R3.4", "a ValidationError raised by a converter's to_python on a string its regex accepted must resume the search, not end the whole match")
     ctx.rule("R3.5", "a list stored into a Weighting / RulePart is not mutated afterwards: the variable is rebound to a fresh list before the next append / clear")
     ctx.rule("R3.6", "the path with repeated slashes merged (and the retry of the search on it) is used only under the map-level merge_slashes flag")
+    ctx.rule("R3.7", "writer/reader agreement on anchoring: the matcher applies a dynamic part's regex from the start of the path segment, and unless it applies it with fullmatch every path through the parser that builds a dynamic part ends its regex in the end-of-string anchor")
+    ctx.rule("R3.8", "writer/reader agreement on the trailing slash of a final part: its regex never requires the slash, and a part marked suffixed ends in a last group capturing the optional slash")
     m = _Matcher(ctx)
     # R3.1
     _r31_order(ctx, m)
@@ -2557,6 +2917,8 @@ def run(ctx: Ctx) -> None:
     _r35(ctx, funcs)
     # R3.6
     _r36(ctx, m)
+    # R3.7, R3.8
+    _r37_r38(ctx, m)
 
 
 def run_thorough(ctx: Ctx) -> None:
